@@ -30,6 +30,15 @@ struct Ledger {
     uint64_t yield_state = 1;
     size_t live_bytes = 0, peak_live = 0;
     bool poison_on_free = true;
+    // quarantine: released blocks are kept (not handed back to the allocator) until drain_quarantine(), so that a second release
+    // of the same pointer is *recorded* as such instead of being undefined behaviour; with poison_on_free off the released
+    // nodes even stay readable, so a walk over an already released list ends in recorded double releases, not in a crash
+    bool quarantine = false;
+    std::unordered_map<void*, size_t> dead;
+    uint64_t double_release = 0;
+    void* last_bad_ptr = nullptr;
+    void drain_quarantine();
+    ~Ledger();
 
     Ledger();
     Ledger(const Ledger&) = delete;
